@@ -68,9 +68,11 @@ CONTRACTS = {
         'property': ['C03', 'C18'],
         'params': {'N': 'int', 'k': 'int'},
         'requires': ['N >= 0', 'k >= 1'],
-        'loops': {0: {'inv': ['d == 1 + _it', 'max_d * (k - 1) <= N - 1']},
-                  1: {'inv': ['i == 1 + _it', 'd >= 1', 'd <= max_d', 'max_i == N - d * k + d', 'max_d * (k - 1) <= N - 1']}},
-        # every yielded list is the arithmetic progression i, i+d, ..., i+d(k-1) inside 1..N
-        'yields': ['len(yielded) == k', 'yielded[0] == i', 'yielded[0] >= 1', 'd >= 1', 'yielded[k - 1] == i + d * (k - 1)', 'yielded[k - 1] <= N'],
+        'loops': {0: {'inv': ['i == 1 + _it']},
+                  1: {'inv': ['d == 1 + _it', 'max_d * (k - 1) <= N - 1', 'k >= 2']},
+                  2: {'inv': ['i == 1 + _it', 'd >= 1', 'd <= max_d', 'max_i == N - d * k + d', 'max_d * (k - 1) <= N - 1', 'k >= 2']}},
+        # every yielded list is an arithmetic progression of length k inside 1..N, with positive difference
+        'yields': ['len(yielded) == k', 'yielded[0] >= 1', 'yielded[k - 1] <= N',
+                   'forall(lambda t: implies(0 <= t and t < k - 1, yielded[t + 1] - yielded[t] == yielded[k - 1] - yielded[k - 2] and yielded[t + 1] > yielded[t]))'],
     },
 }
